@@ -398,6 +398,12 @@ class Lexer:
 
         if match:
             text = match.group(1)
+            if not text and match.end() == match.start():
+                # nothing was consumed: what begins here looks like a
+                # directive but no matcher accepted it.  match_reg() steps
+                # over one character to guarantee progress; that character
+                # is literal text, not something to drop
+                text = self.text[match.start() : match.start() + 1]
             if text:
                 self.append_node(parsetree.Text, text)
             return True
